@@ -2,6 +2,7 @@
 # usage: ./seedtest.sh <seed dir under /verif/seeded> [check ids...]
 # Confirms a seeded change in a scratch worktree (existing tests pass with it; the demonstration fails with
 # it and passes without it), then applies it to /repo, runs the given checks, and reverts /repo.
+# SEED_IN_WORKTREE=1: instead of touching /repo, the scratch worktree stands in for it (VERIF_REPO).
 set -u
 S="$1"; shift
 DIR="/verif/seeded/$S"
@@ -22,6 +23,14 @@ rm "$WT/zz_seed_demo_test.go"
 # a few sleep-based tests of the existing suite are flaky under machine load: up to 3 attempts
 rc=1; for attempt in 1 2 3; do ( cd "$WT" && go test -vet=off -count=1 ./... ) >>"$OUT" 2>&1; rc=$?; [ $rc -eq 0 ] && break; done
 echo "existing tests with change: exit $rc (attempt $attempt)" | tee -a "$OUT"
+if [ "${SEED_IN_WORKTREE:-0}" = 1 ]; then
+  # the scratch worktree (with the change applied) stands in for /repo: usable while other checks run from /repo
+  for c in "$@"; do
+    VERIF_REPO="$WT" /verif/check "$c" quick > "$DIR/check-$c.log" 2>&1
+    echo "check $c: exit $? $(grep -c VIOLATION "$DIR/check-$c.log") violation lines: $(grep -m2 'signature:' "$DIR/check-$c.log" | tr '\n' ' ')" | tee -a "$OUT"
+  done
+  exit 0
+fi
 git -C /repo apply "$DIR/patch.diff" || exit 2
 for c in "$@"; do
   /verif/check "$c" quick > "$DIR/check-$c.log" 2>&1
